@@ -52,6 +52,10 @@ T["lin_spread_reflect"] = doc(f'<defs><linearGradient id="g" spreadMethod="refle
 T["href_stops_only"] = doc(f'<defs><linearGradient id="t">{STOPS}</linearGradient><linearGradient id="g" xlink:href="#t" x1="{{gx1}}" y1="{{gy1}}" x2="{{gx2}}" y2="{{gy2}}"/></defs><g transform="translate({{tx}} {{ty}})">{rect()}</g>')
 T["href_attrs_and_stops"] = doc(f'<defs><linearGradient id="t" gradientUnits="userSpaceOnUse" x1="{{gx1}}" y1="{{gy1}}" gradientTransform="translate({{ne}} {{nf}})">{STOPS}</linearGradient><linearGradient id="g" xlink:href="#t" x2="{{gx2}}" y2="{{gy2}}"/></defs><g transform="scale({{s1}})">{rect()}</g>')
 T["href_chain_two"] = doc(f'<defs><linearGradient id="t2" x1="{{gx1}}">{STOPS}</linearGradient><linearGradient id="t" xlink:href="#t2" y1="{{gy1}}"/><linearGradient id="g" xlink:href="#t" x2="{{gx2}}" y2="{{gy2}}"/></defs><g transform="translate({{tx}} {{ty}})">{rect()}</g>')
+T["href_chain_mid_has_stops"] = doc(f'<defs><linearGradient id="t2" gradientUnits="userSpaceOnUse" spreadMethod="reflect" x1="{{gx1}}" y1="{{gy1}}"><stop offset="0" stop-color="green"/></linearGradient><linearGradient id="t" xlink:href="#t2" x2="{{gx2}}">{STOPS}</linearGradient><linearGradient id="g" xlink:href="#t" y2="{{gy2}}"/></defs><g transform="translate({{tx}} {{ty}})">{rect()}</g>')
+T["href_chain_mid_has_stops_untransformed"] = doc(f'<defs><linearGradient id="t2" gradientUnits="userSpaceOnUse" x1="{{gx1}}" gradientTransform="translate({{ne}} {{nf}})"><stop offset="0" stop-color="green"/></linearGradient><linearGradient id="t" xlink:href="#t2" x2="{{gx2}}">{STOPS}</linearGradient><linearGradient id="g" xlink:href="#t" y2="{{gy2}}"/></defs>{rect()}')
+T["lin_obb_two_shapes_one_group"] = doc(f'<defs><linearGradient id="g" x1="{{gx1}}" y1="{{gy1}}" x2="{{gx2}}" y2="{{gy2}}">{STOPS}</linearGradient></defs><g transform="translate({{tx}} {{ty}})">{rect()}{rect("s2", n=2)}</g>')
+T["rad_obb_two_shapes_same_transform"] = doc(f'<defs><radialGradient id="g" cx="{{gx1}}" cy="{{gy1}}" r="{{r1}}">{STOPS}</radialGradient></defs>' + rect(extra=' transform="scale({s1} {s2})"') + rect("s2", n=2, extra=' transform="scale({s1} {s2})"'))
 T["href_untransformed"] = doc(f'<defs><linearGradient id="t" x1="{{gx1}}" y1="{{gy1}}">{STOPS}</linearGradient><linearGradient id="g" xlink:href="#t" x2="{{gx2}}" y2="{{gy2}}"/></defs>{rect()}')
 T["href_own_stops_win"] = doc(f'<defs><linearGradient id="t" x1="{{gx1}}"><stop offset="0" stop-color="green"/></linearGradient><linearGradient id="g" xlink:href="#t" x2="{{gx2}}">{STOPS}</linearGradient></defs><g transform="translate({{tx}})">{rect()}</g>')
 # --- radial -----------------------------------------------------------------------
@@ -89,6 +93,9 @@ T["rad_percent_user_nonsquare_viewbox"] = (
 for _k in ("lin_obb_rotate", "rad_defaults_matrix_light"):
     THOROUGH[_k] = T.pop(_k)
 T["rad_defaults_scale_matrix"] = doc(f'<defs><radialGradient id="g">{STOPS}</radialGradient></defs>' + rect(extra=' transform="matrix(2 0 0 3 {me} {mf})"'))
+
+
+THOROUGH["rad_obb_two_shapes_same_transform"] = T.pop("rad_obb_two_shapes_same_transform")  # ~4 min
 
 
 def templates(tier):
